@@ -140,6 +140,10 @@ class GhostDB(object):
                 continue
             self.tables[n] = Table(self.tables[n].sa, tag)
 
+    def _tid(self):
+        st = self.I.txn_stack
+        return st[-1]['id'] if st else None
+
     # ------------------------------------------------------------ snapshots
     def snapshot(self):
         s = object.__new__(GhostDB)
@@ -183,6 +187,16 @@ class GhostDB(object):
                    z3.Select(inv.data['max_unit'], k) >= 1,
                    z3.Select(inv.data['step_size'], k) >= 1)),
             patterns=[z3.Select(inv.exists, k)]))
+        rpt = self.tables['resource_providers']
+        if 'generation' in rpt.null:
+            ki = z3.Int('k!rpgen')
+            # the generation column is declared nullable with default 0; every
+            # insert of the tree goes through that default, no statement
+            # writes NULL (guarantee checked with the provider writers)
+            out.append(ops.forall([ki], z3.Implies(
+                z3.Select(rpt.exists, ki),
+                z3.Not(z3.Select(rpt.null['generation'], ki))),
+                patterns=[z3.Select(rpt.exists, ki)]))
         # unique uuid of providers and consumers
         for tn in ('resource_providers', 'consumers'):
             t = self.tables[tn]
@@ -399,7 +413,7 @@ class GhostDB(object):
                         cond, ops.z3bool(n), z3.Select(table.null[cn], k)))
         self.tables[table.name] = new
         self.writes.append((table.name, 'update', tuple(vals)))
-        self.I.event('db.write', table.name, 'update', tuple(sorted(vals)))
+        self.I.event('db.write', table.name, 'update', self._tid())
         if pk is not None:
             rc = z3.If(z3.substitute(cond, (k, pk)), 1, 0)
             return ExecResult(rowcount=from_term(rc, 'int'))
@@ -427,7 +441,7 @@ class GhostDB(object):
                                                z3.Not(cond)))
         self.tables[table.name] = new
         self.writes.append((table.name, 'delete', ()))
-        self.I.event('db.write', table.name, 'delete', ())
+        self.I.event('db.write', table.name, 'delete', self._tid())
         hook = getattr(self, 'on_delete_' + table.name, None)
         if hook is not None:
             hook(stmt, table, where, binds, k, cond)
@@ -489,7 +503,7 @@ class GhostDB(object):
                     new.null[cn] = z3.Store(table.null[cn], key, z3.BoolVal(True))
         self.tables[table.name] = new
         self.writes.append((table.name, 'insert', tuple(vals)))
-        self.I.event('db.write', table.name, 'insert', tuple(sorted(vals)))
+        self.I.event('db.write', table.name, 'insert', self._tid())
         hook = getattr(self, 'on_insert_' + table.name, None)
         if hook is not None:
             hook(vals, key)
